@@ -6,7 +6,7 @@ import vlib
 from . import c12, ipgen, secretlib, textgen
 from .textcommon import TEXT_MODEL_DEPS as MODEL_DEPS, TEXT_TRUSTED as TRUSTED_BASE, TEXT_ASSUMPTIONS as ASSUMPTIONS  # noqa
 
-COQ_DEPS = ["lib/Str.v", "model/TextModel.v", "model/TextProofs.v"]
+COQ_DEPS = ["lib/Str.v", "model/TextModel.v", "model/TextProofs.v", "model/SortProofs.v"]
 RULE = ("texts with every kind of sensitive item incl. $6$/$1$/$9$ secrets and word lists with prefixes of each other; each case is run in fresh interpreters under hash seeds 0,1,2 (quick) / 0-7 (thorough), "
         "twice under the same seed, after constructing unrelated anonymizers (other reserved words, preserved networks, salts, word lists) in the same process, and compared byte for byte with each other and "
         "with the model (which has no hash seed, clock or global state); salts incl. first characters outside the $9$ alphabet; no-salt runs: the reported salt reproduces the output; "
